@@ -274,6 +274,9 @@ impl DSys {
         match op {
             DOp::Set(k, v) => {
                 self.cdb.as_mut().unwrap().set(next, &U64ED::from(*k), U64ED::from(*v)).map_err(|e| e.to_string())?;
+                // Appendix D: `top` is the largest block number the table was given in any set / unset /
+                // commit / reorg — a write for the block under construction counts
+                self.model.max_ever = self.model.max_ever.max(next);
                 let h = self.model.hist.entry(*k).or_default();
                 if model_at(h, u64::MAX) != Some(*v) {
                     h.push((next, Some(*v)));
@@ -281,6 +284,7 @@ impl DSys {
             }
             DOp::Unset(k) => {
                 self.cdb.as_mut().unwrap().unset(next, &U64ED::from(*k)).map_err(|e| e.to_string())?;
+                self.model.max_ever = self.model.max_ever.max(next);
                 let h = self.model.hist.entry(*k).or_default();
                 if model_at(h, u64::MAX).is_some() {
                     h.push((next, None));
